@@ -40,6 +40,8 @@ fn gen_delay(rng: &mut Rng) -> Option<Duration> {
 fn gen_detail(rng: &mut Rng, kind: u64) -> ErrorDetail {
     match kind {
         0 => RetryInfo::new(gen_delay(rng)).into(),
+        // now and then a realistic big one (a deep stack trace): several KiB of details
+        1 if rng.chance(1, 12) => DebugInfo::new((0..rng.urange(60, 120)).map(|i| format!("frame {:03}: tonic_types::richer_error::some::deeply::nested::module::function_{} at src/lib.rs:{}", i, i, 100 + i)).collect::<Vec<_>>(), s(rng)).into(),
         1 => DebugInfo::new((0..rng.below(4)).map(|_| s(rng)).collect::<Vec<_>>(), s(rng)).into(),
         2 => QuotaFailure::new((0..rng.below(5)).map(|_| QuotaViolation::new(s(rng), s(rng))).collect::<Vec<_>>()).into(),
         3 => {
@@ -50,6 +52,7 @@ fn gen_detail(rng: &mut Rng, kind: u64) -> ErrorDetail {
             ErrorInfo::new(s(rng), s(rng), md).into()
         }
         4 => PreconditionFailure::new((0..rng.below(5)).map(|_| PreconditionViolation::new(s(rng), s(rng), s(rng))).collect::<Vec<_>>()).into(),
+        5 if rng.chance(1, 12) => BadRequest::new((0..rng.urange(100, 160)).map(|i| FieldViolation::new(format!("request.items[{}].quantity", i), "must be a positive number not larger than the stock on hand")).collect::<Vec<_>>()).into(),
         5 => BadRequest::new((0..rng.below(5)).map(|_| FieldViolation::new(s(rng), s(rng))).collect::<Vec<_>>()).into(),
         6 => RequestInfo::new(s(rng), s(rng)).into(),
         7 => ResourceInfo::new(s(rng), s(rng), s(rng), s(rng)).into(),
